@@ -179,6 +179,14 @@ def check_buffer(I, buf, starts, mode, e):
                 if len(idx) != len(ia) or idx != list(range(idx[0], idx[0] + len(idx))):
                     fails.append(("%s:graph-node-not-contiguous" % I.short, "node %#x holds %r" % (mo.vaddr, ia)))
                 runs.append((ia[0], ia[-1]))
+            # every node of the support is a vertex of the graph (an object trimmed by the memory zone is not)
+            try:
+                verts = set(id(x) for x in G.V())
+                orphan = [int(mo.vaddr) for mo in G.support._map if id(mo.data.val) not in verts]
+            except Exception:
+                orphan = []
+            if orphan:
+                fails.append(("%s:graph-support-node-not-in-graph:%s" % (I.short, shape), "after inserting %#x (order %r): the support holds nodes at %r that are not vertices of the graph" % (addrs[k], [addrs[j] for j in order], orphan[:4])))
             if len(got) != len(set(got)):
                 dup = sorted(a for a in set(got) if got.count(a) > 1)
                 fails.append(("%s:graph-duplicate:%s" % (I.short, shape), "instructions %r are in two nodes after inserting %#x (order %r)" % (dup[:4], addrs[k], [addrs[j] for j in order])))
@@ -194,7 +202,7 @@ def check_buffer(I, buf, starts, mode, e):
                         fails.append(("%s:graph-split-edge" % I.short, "node %#x was split at %#x but there is no edge between the halves (edges %r)" % (a, lo, sorted(es)[:6])))
             if fails:
                 break
-            if (any(f.startswith("swallowN") for f in flags) and "cut" in flags) or (any(f.startswith("swallow") for f in flags) and "lowest" in flags):
+            if (any(f.startswith("swallow") and f != "swallow1-sameend" for f in flags) and "cut" in flags) or (any(f.startswith("swallow") for f in flags) and "lowest" in flags):
                 # listed findings (C18-cut-and-swallow / C18-lowest-swallow): the support may now be
                 # corrupted without the invariant showing it yet; later insertions are not judged
                 stats["tainted"] = stats.get("tainted", 0) + 1
